@@ -146,6 +146,12 @@ def gen_history(r, name, malformed=False):
                 e["linked"] = True
                 sh.h[s] = dict(f=f, key=k, pos=0, app=False, wr=True)
             continue
+        if act < 0.30 and getattr(sh, "deleted", None) and r.random() < 0.25:
+            # a deleted element must stay deleted (also on disk: asked again after reopen)
+            f2, k = r.choice(sh.deleted)
+            if k not in sh.files[f2]:
+                lines.append("%s %d %d %d" % (r.choice(["exist", "length", "getelement"]), f2, k[0], k[1]))
+            continue
         if act < 0.30 and els:
             k = r.choice(list(els.keys()))
             if els[k]["new"]:
@@ -183,6 +189,9 @@ def gen_history(r, name, malformed=False):
             elif not sh.handles_on(f, k) and not e["new"] and not e["linked"]:
                 lines.append("deldd %d %d %d" % (f, k[0], k[1]))
                 del els[k]
+                if not hasattr(sh, "deleted"):
+                    sh.deleted = []
+                sh.deleted.append((f, k))
             continue
         if not open_slots:
             continue
@@ -344,7 +353,28 @@ def gen_layout_scenario(r, name):
         lines += ["dupdd 0 104 1 %d %d" % last, "startaccess 0 0 %d %d 3" % last, "trunc 0 %d" % r.choice([0, 1, 2]),
                   "tell 0", "end 0"]
         dups.append((104, 1))
+    gone = []
+    if len(keys) > 1 and r.random() < 0.6:
+        # delete some elements (no aliases of them): they must be gone from the file, whatever the cache mode, also
+        # when their slot is not reused before the close, and their tag/ref can be used again
+        aliased = set()
+        for l in lines:
+            t = l.split()
+            if t[0] == "dupdd":
+                aliased.add((int(t[4]), int(t[5])))
+        for k in r.sample(keys[:-1], r.randrange(1, min(3, len(keys) - 1) + 1)):
+            if k in aliased:
+                continue
+            lines.append("deldd 0 %d %d" % k)
+            keys.remove(k)
+            gone.append(k)
     lines.append("reopen 0 %d %d" % (ndds, r.choice([0, 1])))
+    for k in gone:
+        lines.append("%s 0 %d %d" % (r.choice(["exist", "length", "getelement"]), k[0], k[1]))
+    if gone and r.random() < 0.5:
+        k = gone.pop(0)
+        keys.append(k)
+        lines.append("putelement 0 %d %d %s" % (k[0], k[1], hexs(rbytes(r, r.choice([2, 7])))))
     for i in range(r.randrange(1, 4)):
         k = (105, i + 1)
         keys.append(k)
@@ -356,6 +386,37 @@ def gen_layout_scenario(r, name):
     lines.append("reopen 0 16 1")
     for k in keys + dups:
         lines.append("getelement 0 %d %d" % k)
+    for k in gone:
+        lines.append("exist 0 %d %d" % k)
+    return lines
+
+
+def gen_promote_scenario(r, name):
+    """silent promotion reached through every seek origin: an extendable handle on an element that is not the last
+    thing in the file is moved to or past the element's end with DF_START / DF_CURRENT (from a non-zero position) /
+    DF_END; position, transfer counts and content are observed right after, and after a reopen"""
+    lines = ["history " + name, "open 0 %d %d" % (r.choice([4, 5, 16]), r.choice([0, 1, 1]))]
+    n = r.choice([3, 8, 20])
+    lines.append("putelement 0 100 1 %s" % hexs(rbytes(r, n)))
+    lines.append("putelement 0 101 1 %s" % hexs(rbytes(r, r.choice([1, 5]))))      # something behind it
+    lines.append("startaccess 0 0 100 1 19")
+    pos = 0
+    if r.random() < 0.8:
+        pos = r.randrange(1, n + 1)
+        lines += ["seek 0 %d 0" % pos, "tell 0"]
+    for _ in range(r.randrange(1, 4)):
+        target = n + r.choice([0, 0, 1, 4, 11])
+        origin = r.choice([0, 1, 1, 2, 2])
+        base = {0: 0, 1: pos, 2: n}[origin]
+        lines += ["seek 0 %d %d" % (target - base, origin), "tell 0"]
+        pos = target
+        if r.random() < 0.8:
+            k = r.choice([1, 2, 6])
+            lines += ["write 0 " + hexs(rbytes(r, k)), "tell 0"]
+            pos += k
+            n = max(n, pos)
+        lines.append("inquire 0")
+    lines += ["seek 0 0 0", "read 0 0", "end 0", "length 0 100 1", "reopen 0 16 1", "getelement 0 100 1", "getelement 0 101 1"]
     return lines
 
 
@@ -769,7 +830,8 @@ def run(ctx):
         [gen_history(r, "m%d" % i, malformed=True) for i in range(nh // 5)] + \
         [gen_ext_scenario(r, "x%d" % i) for i in range(nh // 6)] + \
         [gen_layout_scenario(r, "y%d" % i) for i in range(nh // 4)] + \
-        [gen_stale_scenario(r, "z%d" % i) for i in range(nh // 10)]
+        [gen_stale_scenario(r, "z%d" % i) for i in range(nh // 10)] + \
+        [gen_promote_scenario(r, "p%d" % i) for i in range(nh // 10)]
     rc, R, S, flat = run_histories(ctx, hists, "main")
     opmix, fails_r = {}, 0
     pos = 0
